@@ -48,7 +48,6 @@ func runC03(e *Env) {
 		}
 		r.Bad("E1.andor", pr.Key, pos, pr.Detail)
 	}
-	swc := m.condEmitter()
 	nAnd, nOr := 0, 0
 	c := newWctx(e, m, "x86_64=true,short=true")
 	for _, nd := range c.w.Nodes {
@@ -66,16 +65,14 @@ func runC03(e *Env) {
 				}
 			}
 			role := "internal"
-			if side.lab != nil && side.lab.Fn() == swc {
-				switch side.lab.Depth() {
-				case 2:
-					role = "match"
-				case 1:
-					role = "noMatch"
-				case 0:
-					role = "entry-exit"
-				}
-			} else if side.lab != nil && side.lab.Fn() != nil && side.lab.Fn().Name() != "JmpIfTrue" {
+			switch labelRole(side.lab) {
+			case "next-cond":
+				role = "match"
+			case "list-failed":
+				role = "noMatch"
+			case "entry-exit", "other":
+				role = "entry-exit"
+			case "group":
 				role = "action"
 			}
 			key := fmt.Sprintf("SyscallWithConditions.Assemble/op=%s/%s/%s-edge", nd.Emit.Ops, lastName(nd.Emit.Last), role)
@@ -737,6 +734,18 @@ func checkNarrowing(e *Env, m *e1Model) {
 					r.OK("E2.narrow", key, pos, fmt.Sprintf("guarded: %d <= x <= %d", lo, hi))
 					continue
 				}
+				// 2b. a count of instructions (sum of slice lengths, also when it arrives through a parameter of an
+				// unexported function): non-negative; bounded by the guard, or converted to 32 bits or more
+				if isCount(p, cv.X, 0) {
+					if okHi && hi <= maxT {
+						r.OK("E2.narrow", key, pos, fmt.Sprintf("sum of slice lengths: non-negative, and bounded above by the dominating guard (<= %d)", hi))
+						continue
+					}
+					if tb >= 32 {
+						r.OK("E2.narrow", key, pos, "sum of slice lengths (non-negative); a program longer than 2^32 instructions cannot exist")
+						continue
+					}
+				}
 				// 3. frozen table with reasons
 				if reason, ok := narrowingAllowed(o, cv, m, okHi && hi <= maxT); ok {
 					r.OK("E2.narrow", key, pos, reason)
@@ -857,24 +866,99 @@ func narrowingAllowed(o *origin.O, cv *ssa.Convert, m *e1Model, upperOK bool) (s
 		return "table value | mask: syscall numbers and the x32 bit fit in 31 bits (C12 compares every row with the oracles)", true
 	case o.Kind == origin.KField && o.Field.Name() == "SeccompMask":
 		return "arch.X32.SeccompMask literal 0x40000000 (C12)", true
-	case fn == "Policy.Assemble" && upperOK:
-		// uint8(jumpN) under jumpN <= 255: the lower bound is the length of two slices (>= 0)
-		if isSumOfLens(cv.X) {
-			return "sum of slice lengths: non-negative, and bounded above by the dominating `<= 255`", true
-		}
-	case fn == "Policy.Assemble" && isSumOfLens(cv.X):
-		if tb, _ := intBits(cv.Type().Underlying().(*types.Basic)); tb >= 32 {
-			return "sum of slice lengths (non-negative); a program longer than 2^32 instructions cannot exist", true
-		}
-	case fn == "Program.resolveLabel" || fn == "Program.Assemble":
+	case m.b != nil && m.b.IsPatcher(cv.Parent()):
 		// distances: discharged structurally by C06 (E2.final / E2.bridge: 0 <= distance <= 255 after a quiescent pass; bridge skip = distance)
-		if strings.Contains(s, "computeSkipN") || strings.Contains(s, "loop:") {
+		dist := m.p.Func(load.PkgRoot, "Program.computeSkipN")
+		if originCalls(o, dist) || strings.Contains(s, "loop:") {
 			return "jump distance: range established by the patcher's own loop/branch (`< 0` loop, `> 255` branch) - see C06 E2.final/E2.bridge", true
 		}
 	case fn == "Program.Ret":
 		return "Action is a uint32 type: same width", true
 	}
 	return "", false
+}
+
+// isCount: v is a sum of slice lengths and non-negative constants, possibly passed through parameters of unexported
+// functions (then every call site must pass such a sum).
+func isCount(p *load.Program, v ssa.Value, depth int) bool {
+	if depth > 4 {
+		return false
+	}
+	switch x := v.(type) {
+	case *ssa.BinOp:
+		if x.Op == token.ADD {
+			return isCount(p, x.X, depth) && isCount(p, x.Y, depth)
+		}
+	case *ssa.Call:
+		if bi, ok := x.Call.Value.(*ssa.Builtin); ok && (bi.Name() == "len" || bi.Name() == "cap") {
+			return true
+		}
+	case *ssa.Const:
+		k, ok := flow.ConstInt(x)
+		return ok && k >= 0
+	case *ssa.Parameter:
+		fn := x.Parent()
+		if fn.Object() == nil || fn.Object().Exported() && fn.Signature.Recv() == nil {
+			return false
+		}
+		if fn.Object().Exported() {
+			return false
+		}
+		idx := -1
+		for i, q := range fn.Params {
+			if q == x {
+				idx = i
+			}
+		}
+		n := 0
+		for _, f := range p.SrcFuncs(load.PkgRoot) {
+			for _, b := range f.Blocks {
+				for _, in := range b.Instrs {
+					ci, ok := in.(ssa.CallInstruction)
+					if !ok {
+						continue
+					}
+					if ci.Common().StaticCallee() == fn {
+						n++
+						if idx >= len(ci.Common().Args) || !isCount(p, ci.Common().Args[idx], depth+1) {
+							return false
+						}
+					} else if ci.Common().StaticCallee() == nil {
+						// the function used as a value (closure, method value) somewhere: give up
+						for _, a := range ci.Common().Args {
+							if a == ssa.Value(fn) {
+								return false
+							}
+						}
+					}
+				}
+			}
+		}
+		return n > 0 && !usedAsValue(p, fn)
+	}
+	return false
+}
+
+// usedAsValue: the function is referenced other than as the callee of a static call.
+func usedAsValue(p *load.Program, fn *ssa.Function) bool {
+	for _, f := range p.SrcFuncs(load.PkgRoot) {
+		for _, b := range f.Blocks {
+			for _, in := range b.Instrs {
+				for _, op := range in.Operands(nil) {
+					if *op == ssa.Value(fn) {
+						if ci, ok := in.(ssa.CallInstruction); ok && ci.Common().Value == ssa.Value(fn) {
+							continue
+						}
+						return true
+					}
+				}
+				if mc, ok := in.(*ssa.MakeClosure); ok && mc.Fn == ssa.Value(fn) {
+					return true
+				}
+			}
+		}
+	}
+	return false
 }
 
 func isSumOfLens(v ssa.Value) bool {
